@@ -233,6 +233,18 @@ func (i *interpreter) derefTarget(p uptr, elem types.Type) *value {
 		if !p.offIsZero() {
 			panic(unsupported{"pointer arithmetic inside a single-cell object"})
 		}
+		// (*reflect.SliceHeader)(unsafe.Pointer(&slice)): a detached header
+		// view {Data, Len, Cap} of the slice variable.
+		if sl, ok := (*p.cell).([]value); ok {
+			if st, ok := elem.Underlying().(*types.Struct); ok && st.NumFields() == 3 && st.Field(0).Name() == "Data" {
+				var data value = uptr{}
+				if sl != nil {
+					data = uptr{base: sl[:cap(sl)], esize: 8}
+				}
+				h := value(structure{data, len(sl), cap(sl)})
+				return &h
+			}
+		}
 		return p.cell
 	}
 	if p.base == nil {
